@@ -177,6 +177,8 @@ func nativeReplay(path string) (bool, string) {
 			}
 		}
 		return true, short
+	case "pass":
+		return !failed, short
 	case "deadlock":
 		return failed && (strings.Contains(out, "test timed out") || strings.Contains(out, "all goroutines are asleep")), short
 	}
@@ -286,4 +288,25 @@ func firstN(s string, n int) string {
 		return s[:n]
 	}
 	return s
+}
+
+// nativePass runs a passing-path witness natively: the harness must complete without assertion failure, panic,
+// divergence of the input stream or a stuck schedule.
+func nativePass(path string) (bool, string) {
+	_, out := nativeReplay(path)
+	if strings.Contains(out, "VERIF-SCHED-DIVERGED") {
+		// goroutines running in other packages are not gated natively, so the recorded schedule could not be imposed:
+		// nothing was compared (reported as unvalidated, not as a disagreement)
+		return true, "UNVALIDATED " + out
+	}
+	bad := []string{"VERIF-ASSERT-FAIL", "VERIF-REPLAY-DIVERGED", "VERIF-REPLAY-ERROR", "VERIF-ASSUME-FAILED", "panic:", "fatal error:", "[build failed]", "[setup failed]", "test timed out"}
+	for _, b := range bad {
+		if strings.Contains(out, b) {
+			return false, out
+		}
+	}
+	if strings.Contains(out, "VERIF-REPLAY-TOO-LARGE") {
+		return true, out // sizes not materialisable natively: nothing to compare
+	}
+	return strings.Contains(out, "ok  \t") || strings.Contains(out, "PASS"), out
 }
